@@ -72,3 +72,15 @@ impl AddrBook {
         changed
     }
 }
+
+/// Holds the sender lock of the address book (what `update` / `announce` serialise on), the way an
+/// in-flight `push_validator_addrs` handler does. Dropping it releases the lock.
+pub struct AddrBookLock<'a>(#[allow(dead_code)] sync::MutexGuard<'a, sync::watch::Sender<ValidatorAddrs>>);
+
+impl AddrBook {
+    /// Acquires the lock `update` / `announce` serialise on. While the returned guard is alive
+    /// every `update` / `announce` future queues on the (fair, FIFO) lock in the order of its first poll.
+    pub async fn hold_lock(&self) -> AddrBookLock<'_> {
+        AddrBookLock(self.inner.verif_lock().await)
+    }
+}
